@@ -8,6 +8,7 @@ import numpy as np
 from scipy.interpolate import LSQUnivariateSpline
 
 from photutils.isophote.geometry import EllipseGeometry
+from photutils.isophote.isophote import IsophoteList
 
 __all__ = ['build_ellipse_model']
 
@@ -52,6 +53,15 @@ def build_ellipse_model(shape, isolist, fill=0.0, high_harmonics=False):
     """
     if len(isolist) == 0:
         raise ValueError('isolist must not be empty')
+
+    # isophotes without data (e.g., ellipses that lie entirely outside
+    # the image, extracted in non-iterative mode) have a NaN intensity;
+    # a single one would turn the least-squares splines below, and thus
+    # the whole model, into NaN.
+    isolist = IsophoteList([iso for iso in isolist
+                            if np.isfinite(iso.intens)])
+    if len(isolist) == 0:
+        raise ValueError('isolist has no isophote with a finite intensity')
 
     # the target grid is spaced in 0.1 pixel intervals so as
     # to ensure no gaps will result on the output array.
